@@ -362,3 +362,106 @@ def gla_raises(ctx, st, exc):
 
 
 UNITS.append(Unit("C15", "jsonargparse._link_arguments:get_link_actions", gla_setup, gla_post, gla_raises))
+
+
+# ------------------------------------------------------------------------------------------------ ActionLink.__init__ (declaration of a link)
+# a link is accepted only between keys the parser defines (sources: what the phase needs - any action for parse links, a class for
+# instantiation links; target: an action, for a class-typed target a key below its init_args); afterwards the target can no longer be
+# given by the user (its option strings lead to the link), is no longer required, and the link is listed with the links of its phase.
+def li_setup(ctx):
+    apply_on = ["parse", "instantiate"][ctx.choose(2, "apply_on")]
+    src_kind = ["one-known", "two-known", "one-unknown", "given-as-tuple"][ctx.choose(4, "sources")]
+    tgt_kind = ["leaf", "unknown", "class-init_arg", "class-whole", "class-bad-key"][ctx.choose(5, "target")]
+    required = ctx.choose(2, "target-is-required") == 1
+    cyc = ctx.choose(2, "closes-a-cycle") == 1 if apply_on == "instantiate" else False
+    has_links_group = ctx.choose(2, "links-declared-before") == 1
+    for n in ("ActionLink", "_ActionConfigLoad", "_ActionSubCommands", "ActionConfigFile"):
+        ctx.classes.add(n, ["Action"])
+    sources = {"one-known": "a", "two-known": ("a", "b"), "one-unknown": "zz", "given-as-tuple": ("a",)}[src_kind]
+    target = {"leaf": "t", "unknown": "zz.t", "class-init_arg": "m.init_args.k", "class-whole": "m", "class-bad-key": "m.k"}[tgt_kind]
+    t_action = Rec("Action", attrs={"dest": "t", "option_strings": ["--t", "-t"], "type": Rec("int"), "help": "help of t"})
+    m_action = Rec("ActionTypeHint", attrs={"dest": "m", "option_strings": ["--m"], "_typehint": Rec("Base"), "help": "help of m", "sub_add_kwargs": {}, "type": None})
+    m_help = Rec("Action", attrs={"dest": "m.help", "option_strings": ["--m.help"]})
+    other = Rec("Action", attrs={"dest": "a", "option_strings": ["--a"]})
+    grp = Rec("group", attrs={"_group_actions": [other, t_action, m_action, m_help], "description": None})
+    links_group = Rec("links group", attrs={"_group_actions": []})
+    req = {"t", "m", "m.init_args.k", "a"} if required else {"a"}
+    parser = Rec("ArgumentParser", attrs={"_option_string_actions": {"--t": t_action, "-t": t_action, "--m": m_action, "--m.help": m_help, "--a": other}, "_actions": [other, t_action, m_action, m_help],
+                                          "_action_groups": [grp], "required_args": req},
+                 methods={"add_argument_group": lambda c, s_, a, k: (c.event("links-group-created", a), links_group)[1]})
+    if has_links_group:
+        parser.attrs["_links_group"] = links_group
+    src_found = {"a": [other], "b": [Rec("Action", attrs={"dest": "b"})]}
+    cls_found = {"a": Rec("class group a"), "b": Rec("class group b")}
+    tmap = {"t": t_action, "m.init_args.k": m_action, "m": m_action, "m.k": m_action}
+    inited = []
+    self = Rec("ActionLink", methods={"_initial_input_checks": lambda c, s_, a, k: c.event("input-checks", a[0], a[1]),
+                                      "instantiation_order": lambda c, s_, a, k: (c.event("cycle-check", list(links_group.attrs["_group_actions"])), (_ for _ in ()).throw(PyRaise(ExcVal("ValueError", args=("cycle",), origin="instantiation_order"))) if cyc else [])[1]})
+    calls = {
+        "find_subclass_action_or_class_group": lambda c, a, k: (c.event("find-class", a[1], k.get("exclude")), cls_found.get(a[1]))[1],
+        "find_parent_or_child_actions": lambda c, a, k: (c.event("find-actions", a[1], k.get("exclude")), src_found.get(a[1]))[1],
+        "_find_parent_action": lambda c, a, k: (c.event("find-target", a[1], k.get("exclude")), tmap.get(a[1]))[1],
+        "ActionTypeHint.is_subclass_typehint": lambda c, a, k: a[0] is m_action,
+        "super": lambda c, a, k: Rec("super()", methods={"__init__": lambda c2, s2, a2, k2: inited.append((a2, dict(k2)))}),
+        "import_module": lambda c, a, k: Rec("module", attrs={"empty_help": "<empty help>"}),
+    }
+    consts = {"ActionLink": ClassRef("ActionLink"), "_ActionConfigLoad": ClassRef("_ActionConfigLoad"), "_ActionSubCommands": ClassRef("_ActionSubCommands"), "ActionConfigFile": ClassRef("ActionConfigFile"), "SUPPRESS": "==SUPPRESS=="}
+    fn = [None, Rec("fn", attrs={"__name__": "compute"})][ctx.choose(2, "compute_fn")]
+    return Setup(env={"self": self, "parser": parser, "source": sources, "target": target, "compute_fn": fn, "apply_on": apply_on}, calls=calls, consts=consts,
+                 data=dict(apply_on=apply_on, src_kind=src_kind, tgt_kind=tgt_kind, required=required, cyc=cyc, has_links_group=has_links_group, sources=sources, target=target, parser=parser, self_=self,
+                           t_action=t_action, m_action=m_action, m_help=m_help, other=other, grp=grp, links_group=links_group, inited=inited, fn=fn, src_found=src_found, cls_found=cls_found))
+
+
+def li_legal(d):
+    return d["src_kind"] != "one-unknown" and d["tgt_kind"] in ("leaf", "class-init_arg", "class-whole") and not d["cyc"]
+
+
+def li_post(ctx, st, result):
+    d = st.data
+    tag = f"[{d['apply_on']},sources:{d['src_kind']},target:{d['tgt_kind']}{',required' if d['required'] else ''}{',first link' if not d['has_links_group'] else ''}]"
+    ctx.oblige("post", "accepted=>every-source-and-the-target-are-defined-by-the-parser,a-class-target-is-addressed-below-init_args(or as a whole),and-no-cycle-is-closed" + tag, li_legal(d))
+    if not li_legal(d):
+        return
+    p, s_ = d["parser"].attrs, d["self_"].attrs
+    srcs = (d["sources"],) if isinstance(d["sources"], str) else d["sources"]
+    table = d["cls_found"] if d["apply_on"] == "instantiate" else d["src_found"]
+    ctx.oblige("post", "the-sources-are-resolved-the-way-the-phase-needs(classes for instantiation links, actions for parse links),in-the-order-given" + tag,
+               isinstance(s_.get("source"), list) and [x[0] for x in s_["source"]] == list(srcs) and all(x[1] is table[x[0]] for x in s_["source"]))
+    tgt_action = d["t_action"] if d["tgt_kind"] == "leaf" else d["m_action"]
+    ctx.oblige("post", "the-target-is-bound-to-its-action" + tag, s_.get("target") == (d["target"], tgt_action) or (s_.get("target")[0] == d["target"] and s_.get("target")[1] is tgt_action))
+    ctx.oblige("post", "a-linked-target-is-no-longer-required-from-the-user" + tag, d["target"] not in p["required_args"] and "a" in p["required_args"])
+    if d["tgt_kind"] in ("leaf", "class-whole"):
+        ctx.oblige("post", "every-option-string-of-the-target-now-leads-to-the-link(the user can no longer set it);other-options-untouched" + tag,
+                   all(p["_option_string_actions"][o] is d["self_"] for o in tgt_action.attrs["option_strings"]) and p["_option_string_actions"]["--a"] is d["other"]
+                   and d["self_"] in p["_actions"] and not any(x is tgt_action for x in p["_actions"]) and len(p["_actions"]) == 4)
+    else:
+        ctx.oblige("post", "a-link-into-a-class's-init_args-keeps-the-class-option-and-records-the-linked-parameter-on-it" + tag,
+                   p["_option_string_actions"]["--m"] is d["m_action"] and d["m_action"].attrs["sub_add_kwargs"].get("linked_targets") == {"k"} and any(x is d["m_action"] for x in p["_actions"]))
+    ctx.oblige("post", "the-link-is-listed-with-the-parser's-links(group created on first use)" + tag,
+               p.get("_links_group") is d["links_group"] and [x for x in d["links_group"].attrs["_group_actions"]] == [d["self_"]] and (len([e for e in ctx.events if e[0] == "links-group-created"]) == (0 if d["has_links_group"] else 1)))
+    ctx.oblige("post", "declared-as-an-action-whose-dest-is-the-target-and-that-never-contributes-a-default" + tag,
+               len(d["inited"]) == 1 and d["inited"][0][1].get("dest") == d["target"] and d["inited"][0][1].get("default") == "==SUPPRESS==")
+    ctx.oblige("post", "phase-and-function-are-remembered-as-given" + tag, s_.get("apply_on") == d["apply_on"] and s_.get("compute_fn") is d["fn"])
+    ic = [e for e in ctx.events if e[0] == "input-checks"]
+    ctx.oblige("post", "the-declaration-is-checked-first(_initial_input_checks on the source tuple and the target)" + tag, len(ic) == 1 and ic[0][1] == tuple(srcs) and ic[0][2] == d["target"] and ctx.events[0][0] in ("links-group-created", "input-checks"))
+    ctx.oblige("post", "the-link-knows-its-parser,target-and-sources(what _check_type and get_kwargs use)" + tag, s_.get("parser") is d["parser"] and s_.get("_target") == d["target"] and s_.get("_source") == tuple(srcs))
+    want_type = None if d["tgt_kind"] == "class-init_arg" else (d["m_action"].attrs["_typehint"] if d["tgt_kind"] == "class-whole" else d["t_action"].attrs["type"])
+    ctx.oblige("post", "the-link-carries-the-target's-type(None for a link into init_args: checked by the class's own parser)" + tag, len(d["inited"]) == 1 and d["inited"][0][1].get("type") is want_type)
+    if d["tgt_kind"] in ("leaf", "class-whole"):
+        shown = d["grp"].attrs["_group_actions"]
+        ctx.oblige("post", "the-replaced-target(and a class target's --*.help companion)-is-no-longer-listed-in-its-help-group" + tag,
+                   not any(x is tgt_action for x in shown) and (d["tgt_kind"] == "leaf" or not any(x is d["m_help"] for x in shown)) and any(x is d["other"] for x in shown))
+    if d["apply_on"] == "instantiate":
+        cc = [e for e in ctx.events if e[0] == "cycle-check"]
+        ctx.oblige("post", "an-instantiation-link-is-checked-for-cycles-with-itself-already-listed" + tag, len(cc) == 1 and any(x is d["self_"] for x in cc[0][1]))
+
+
+def li_raises(ctx, st, exc):
+    d = st.data
+    ctx.oblige("raises", f"ValueError-exactly-when-the-link-is-not-legal[{d['apply_on']},sources:{d['src_kind']},target:{d['tgt_kind']}{',cycle' if d['cyc'] else ''}](got {exc.cls}@{exc.origin})",
+               exc.cls == "ValueError" and not li_legal(d))
+
+
+UNITS.append(Unit("C15", "jsonargparse._link_arguments:ActionLink.__init__", li_setup, li_post, li_raises, max_paths=20000, expect_cover=("return", "raise:ValueError"),
+                  trusted=["find_parent_or_child_actions / find_subclass_action_or_class_group / _find_parent_action resolve keys to actions (C06 units for the latter)", "_initial_input_checks: its own unit; instantiation_order: C16 unit",
+                           "argparse.Action.__init__ (super()) stores the keywords"]))
